@@ -258,6 +258,15 @@ def fam_editorconfig(tier):
                                                                "end_of_line": "crlf", "indent_style": "space", "indent_size": "tab",
                                                                "tab_width": "3"})]), argv, stdin)
         add("ec+nonoverlapping-override:" + tg, lambda b: b.ec("."), ["--quote-style", "ForceSingle", "--call-parentheses=None"] + argv, stdin)
+    # sections that tell files of ONE directory apart: the properties belong to the file, not to its directory
+    for k, argv in enumerate((["."], ["a/b"], ["a/b/gen.lua", "a/b/t.lua", "a/b/u.luau"], ["a/b/u.luau", "a/b/t.lua", "a/b/gen.lua"],
+                              ["a/b/t.lua", "a/b", "t0.lua"], ["--num-threads", "1", "a/b"])):
+        for where in (".", "a/b"):
+            b = Builder("editorconfig")
+            for f in ("t0.lua", "gen.lua", "a/t1.lua", "a/b/t.lua", "a/b/gen.lua", "a/b/u.luau", "a/b/n.txt"):
+                b.lua(f)
+            b.ec(where, [("*.lua", sp(b.width())), ("gen.lua", dict(sp(b.width()), quote_type="single")), ("*.luau", sp(b.width()))])
+            cases.append(b.case(argv, None, tag=f"ec-per-file:{where}:{k}"))
     return cases
 
 
